@@ -65,7 +65,7 @@ an attribute the function's write sites go through (slot- and attribute-specific
 array, never its `amplitude` or `mask`) -/
 def writeCells (tbl : List Gen.EffRow) (s : State) (op : Op) : List Cell :=
   (op.bind.filter fun b => (writeSlots tbl op).contains b.1).flatMap fun b =>
-    b.2 :: ((s.refs b.2).filter fun r => (writeAttrs tbl op b.1).isEmpty || (writeAttrs tbl op b.1).contains r.1).map (·.2)
+    b.2 :: ((s.refs b.2).filter fun r => r.1 == "*" || (writeAttrs tbl op b.1).isEmpty || (writeAttrs tbl op b.1).contains r.1).map (·.2)
 
 def usesGlobalRng (tbl : List Gen.EffRow) (fn : String) : Bool :=
   match row? tbl fn with
@@ -83,6 +83,25 @@ def capturedBy (tbl : List Gen.EffRow) (op : Op) : List (String × Cell) :=
   | some r => r.captures.flatMap fun cp => (op.bind.filter fun b => b.1 == cp.2).map fun b => (cp.1, b.2)
   | none => op.bind.map fun b => ("?", b.2)
 
+/-- what a result that is NOT fresh shares with the arguments (regenerated `returnsAlias`: the parameters the returned value may be
+a view of): the cells bound to those parameters, under the wildcard attribute "*" (a write to the result is a write to them),
+and everything those cells hold -/
+def aliasedBy (tbl : List Gen.EffRow) (s : State) (op : Op) : List (String × Cell) :=
+  match row? tbl op.fn with
+  | some r => (op.bind.filter fun b => r.returnsAlias.contains b.1).flatMap fun b => ("*", b.2) :: s.refs b.2
+  | none => op.bind.map fun b => ("*", b.2)
+
+/-- public functions whose result is documented/expected to be (a view of) an argument: attribute getters, the in-place functions
+that return their target, window/subarray views, pass-through sanitizers -/
+def viewReturning : List String := [
+  "detector.qe_asarray", "field.boundary", "field.insert", "plane.Image.fit_tilt", "plane.Plane.amplitude", "plane.Plane.diameter",
+  "plane.Plane.fit_tilt", "plane.Plane.global_mask", "plane.Plane.mask", "plane.Plane.opd", "plane.Plane.pixelscale", "plane.Plane.ptype",
+  "ptype.PType.__str__", "ptype.ptype", "radiometry.Flam.to", "radiometry.Photlam.to", "radiometry.Spectrum.value",
+  "radiometry.Spectrum.valueunit", "radiometry.Spectrum.wave", "radiometry.Spectrum.waveunit", "radiometry.Wlam.to",
+  "radiometry.path_emission", "util.sanitize_bandpass", "util.sanitize_shape", "util.subarray", "util.window",
+  "wavefront.Wavefront.insert", "wavefront.Wavefront.pixelscale", "wavefront.Wavefront.ptype", "wavefront.Wavefront.wavelength",
+  "zernike.zernike"]
+
 /-- `arange(n) - floor(n/2)` -/
 def cc (n i : Int) : Int := i - n / 2
 /-- what `_dft2_coords(m, n, M, N)` computes -/
@@ -95,7 +114,7 @@ def step (tbl : List Gen.EffRow) (s : State) (op : Op) : State :=
   let W := writeCells tbl s op
   { val := fun c => if op.res = some c then op.newVal c else if W.contains c then op.newVal c else s.val c
     refs := fun c =>
-      if op.res = some c then capturedBy tbl op
+      if op.res = some c then capturedBy tbl op ++ aliasedBy tbl s op
       -- a setter (`plane.opd = arr`) makes the object hold its argument by reference from now on
       else if op.res = none ∧ op.bind.contains ("self", c) then capturedBy tbl op ++ s.refs c
       else s.refs c
@@ -124,12 +143,12 @@ def documentedInPlace : List (String × String) := [
   ("fourier.dft2", "out"), ("fourier.idft2", "out"),
   ("propagate.propagate_fft", "scratch"),
   ("plane.Plane.fit_tilt", "self"),
-  ("plane.Plane.amplitude", "self"), ("plane.Plane.opd", "self"), ("wavefront.Wavefront.ptype", "self"),
+  ("plane.Plane.amplitude.setter", "self"), ("plane.Plane.opd.setter", "self"), ("wavefront.Wavefront.ptype.setter", "self"),
   ("radiometry.Spectrum.append", "self"), ("radiometry.Spectrum.crop", "self"), ("radiometry.Spectrum.pad", "self"),
   ("radiometry.Spectrum.resample", "self"), ("radiometry.Spectrum.to", "self"), ("radiometry.Spectrum.trim", "self"),
-  ("radiometry.Spectrum.wave", "self"), ("radiometry.Spectrum.value", "self"),
-  ("radiometry.Spectrum.waveunit", "self"), ("radiometry.Spectrum.valueunit", "self"),
-  ("radiometry.Material.transmission", "self"), ("radiometry.Material.emission", "self")]
+  ("radiometry.Spectrum.wave.setter", "self"), ("radiometry.Spectrum.value.setter", "self"),
+  ("radiometry.Spectrum.waveunit.setter", "self"), ("radiometry.Spectrum.valueunit.setter", "self"),
+  ("radiometry.Material.transmission.setter", "self"), ("radiometry.Material.emission.setter", "self")]
 
 /-- the table-level check: every in-place write site of a public function is on the documented list -/
 def tableOK (tbl : List Gen.EffRow) : Bool :=
